@@ -245,7 +245,9 @@ func (d *badgerNodeDB) cleanMultipartLocked(removeNodes bool) error {
 
 	var logged bool
 	for it.Rewind(); it.Valid(); it.Next() {
-		key := it.Item().Key()
+		// The key must be copied as it is only valid until the iterator advances, while the
+		// batch keeps a reference to it until it is flushed.
+		key := it.Item().KeyCopy(nil)
 		if removeNodes {
 			if !logged {
 				d.logger.Info("removing some nodes from a multipart restore")
